@@ -182,7 +182,7 @@ def run_check(tier, seed):
             ev.assumptions.append('%s is not world-searchable: operations as non-root callers that re-resolve nothing are unaffected (all calls are relative to O_PATH descriptors)' % p); break
     try:
         cfgs = CONFIGS if quick else (CONFIGS + all_configs())
-        n_hist = 35 if quick else max(600, len(cfgs))
+        n_hist = 21 if quick else max(600, len(cfgs))
         hist = []
         for k in range(n_hist):
             hrng = random.Random(rng.getrandbits(64))
